@@ -1237,7 +1237,7 @@ def dir_scenarios(rng, tier: str, good: bytes, other: bytes, left: dict) -> list
                 for via in ("load", "gateway"):
                     out.append({"main": (mlabel, mdata), "siblings": sibs, "into": False, "via": via, "newer": True, "label": "crash"})
     # (c) several siblings at once, random
-    for _ in range(200 if tier == "quick" else 4000):
+    for _ in range(200 if tier == "quick" else 2500):
         mlabel, mdata = mains[0] if rng.random() < 0.5 else rng.choice(mains)
         sibs = []
         for kind, name in rng.sample(names, rng.randint(2, 5)):
